@@ -9,6 +9,10 @@ use std::{error, fmt, io};
 
 mod timezone;
 pub(crate) use timezone::TimeZone;
+#[cfg(feature = "__verif")]
+#[doc(hidden)]
+#[allow(unreachable_pub)]
+pub use timezone::verif;
 
 mod parser;
 mod rule;
